@@ -3,6 +3,7 @@ package main
 import (
 	"fmt"
 	"go/types"
+	"os"
 	"sort"
 	"strings"
 
@@ -191,13 +192,16 @@ func (fr *Frame) localByName(n string, ec *EvalCtx) (Val, bool) {
 		}
 	}
 	// debug refs: the unique SSA value bound to identifier n that has a value already
-	var found *Val
+	var found, constFound *Val
 	cnt := 0
 	seen := map[ssa.Value]bool{}
 	for _, b := range fr.fn.Blocks {
 		for _, in := range b.Instrs {
 			if d, ok := in.(*ssa.DebugRef); ok && !d.IsAddr {
 				if id, ok := d.Expr.(interface{ String() string }); ok && id.String() == n {
+					if os.Getenv("GOVC_DEBUG") != "" {
+						fmt.Fprintf(os.Stderr, "  debugref %s -> %s (%T) seen=%v\n", n, d.X.Name(), d.X, seen[d.X])
+					}
 					if v, ok := fr.vals[d.X]; ok && !seen[d.X] {
 						seen[d.X] = true
 						vv := v
@@ -206,12 +210,17 @@ func (fr *Frame) localByName(n string, ec *EvalCtx) (Val, bool) {
 					} else if c, isC := d.X.(*ssa.Const); isC && !seen[d.X] {
 						seen[d.X] = true
 						vv := ex.constVal(c)
-						found = &vv
-						cnt++
+						constFound = &vv
 					}
 				}
 			}
 		}
+	}
+	if os.Getenv("GOVC_DEBUG") != "" {
+		fmt.Fprintf(os.Stderr, "localByName(%s) in %s: cnt=%d loop=%v\n", n, fr.fn.Name(), cnt, ec.loop != nil)
+	}
+	if cnt == 0 && constFound != nil {
+		return *constFound, true // only the zero-value declaration binds the name
 	}
 	if cnt == 1 {
 		return *found, true
@@ -475,7 +484,7 @@ func (ec *EvalCtx) lvalOf(e Expr) lval {
 		i := ec.coerce(ec.eval(x.I), SInt)
 		if b.G != nil {
 			if st, ok := b.G.Underlying().(*types.Slice); ok {
-				return lval{fmt.Sprintf("(ea (sarr %s) (+ (soff %s) %s))", b.T, b.T, i.T), st.Elem()}
+				return lval{fmt.Sprintf("(elemaddr %s %s)", b.T, i.T), st.Elem()}
 			}
 		}
 		ec.fail("cannot take element location of %s", exprString(x.X))
@@ -652,7 +661,7 @@ func (ec *EvalCtx) evalIdx(x *EIdx) Val {
 		switch t := b.G.Underlying().(type) {
 		case *types.Slice:
 			i := ec.coerce(ec.eval(x.I), SInt)
-			addr := fmt.Sprintf("(ea (sarr %s) (+ (soff %s) %s))", b.T, b.T, i.T)
+			addr := fmt.Sprintf("(elemaddr %s %s)", b.T, i.T)
 			return Val{T: ex.load(ec.mem, t.Elem(), addr), S: ex.D.sortOf(t.Elem()), G: t.Elem()}
 		case *types.Map:
 			k := ec.coerce(ec.eval(x.I), ex.D.sortOf(t.Key()))
@@ -789,6 +798,14 @@ func (ec *EvalCtx) evalCall(x *ECall) Val {
 	case "fresh": // allocated during this call
 		v := ec.coerce(ec.eval(x.Args[0]), SInt)
 		return Val{T: fmt.Sprintf("(> (root %s) allocbase)", v.T), S: SBool}
+	case "chcap", "chqueued": // channel capacity / number of queued messages (engine channel model)
+		v := ec.coerce(ec.eval(x.Args[0]), SInt)
+		arr := "CH_cap"
+		if x.Fn == "chqueued" {
+			arr = "CH_queued"
+		}
+		ex.arraySort(arr, "(Array Int Int)")
+		return Val{T: fmt.Sprintf("(select %s %s)", ex.memGet(ec.mem, arr), v.T), S: SInt}
 	case "objid":
 		return ec.objid(ec.eval(x.Args[0]))
 	case "ea_arr":
